@@ -764,6 +764,48 @@ def lifecycle(seed):
     return ops
 
 
+def wide(seed, bases=("general", "cascade", "lifecycle", "graphs", "priorities", "targeted", "accept")):
+    """Index inflation: run-time registered components / events without a Rust type (`add_*_with_descriptor`; `K<n>`, n >= 6,
+    `G<n>`, n >= 4, `T<n>`, n >= 3) fill the registries first, so that the typed items of an ordinary history get indices on both
+    sides of the 64-bit block boundaries of the bit sets (sent events, referenced components) and deep into the sparse
+    index tables; some fillers are removed again, so that low slots are reused with a bumped generation next to high ones."""
+    r = random.Random(seed ^ 0x5EED)
+    base = PROFILES[r.choice(list(bases))]
+    body = base(seed) if base is not general else general(seed, comps=(0, 1, 2, 3, 4, 5))
+    ops = []
+    nk = r.choice([0, r.randint(55, 66), r.randint(55, 66), r.randint(120, 130)])
+    ng = r.choice([0, r.randint(48, 64), r.randint(48, 64), r.randint(110, 128)])
+    nt = r.choice([0, r.randint(55, 66), r.randint(55, 66)])
+    if nk == ng == nt == 0:
+        nk = r.randint(58, 64)
+    pads = [f"addc K{6 + i}" for i in range(nk)] + [f"addev G{4 + i}" for i in range(ng)] + [f"addev T{3 + i}" for i in range(nt)]
+    if r.random() < 0.5:
+        r.shuffle(pads)
+    ops += pads
+    # holes: removed fillers free low slots (index reuse with a new generation by whatever is registered next)
+    for _ in range(r.randint(0, 4)):
+        x = r.random()
+        if x < 0.4 and nk:
+            ops.append(f"rmc K{6 + r.randrange(nk)}")
+        elif x < 0.7 and ng:
+            ops.append(f"rmev G{4 + r.randrange(ng)}")
+        elif nt:
+            ops.append(f"rmev T{3 + r.randrange(nt)}")
+    # fillers coming and going in the middle of the history as well
+    out = []
+    for op in body:
+        if op != "drop" and r.random() < 0.04:
+            x = r.random()
+            if x < 0.3 and nk:
+                out.append(f"{r.choice(['rmc', 'addc'])} K{6 + r.randrange(nk)}")
+            elif x < 0.6 and ng:
+                out.append(f"{r.choice(['rmev', 'addev'])} G{4 + r.randrange(ng)}")
+            elif nt:
+                out.append(f"{r.choice(['rmev', 'addev'])} T{3 + r.randrange(nt)}")
+        out.append(op)
+    return ops + out
+
+
 PROFILES = {
     "general": general,
     "storage": storage,
@@ -777,3 +819,5 @@ PROFILES = {
     "spawns": spawns,
     "arena": arena,
 }
+PROFILES["wide"] = wide
+
